@@ -255,6 +255,7 @@ def run(ctx):
 
     # ---- shared: what is encoded is the datum's own value under the branch / length / index the reader decodes ----
     ctx.borrow("C16", {"C16.R4": "C01.R10", "C16.R5": "C01.R11", "C16.R6": "C01.R12"}, "values of logical types are data like any other: a preparer that stores a different number (rounded to the decimal context, truncated to the fixed size) breaks the round trip of the datum")
+    ctx.borrow("C17", {"C17.R2": "C01.R16"}, "the bytes one schemaless_writer call emits are the encoding of its own datum: a buffer or encoder kept at module level between calls lets one call's output contain another's (overlapping calls, re-entrant calls from a records generator)", only=lambda o: any(k in o["where"] for k in ("schemaless_writer", "schemaless_reader", "write_data", "read_data")))
     ctx.borrow("C09", {"C09.R3": "C01.R13"}, "a datum that conforms to a union must be encodable: the search has to be able to select every conforming branch (record branches that share no field name with the datum included), in schema order")
     ctx.borrow("C02", {"C02.R2": "C01.R6", "C02.R3": "C01.R7", "C02.R4": "C01.R8", "C02.R5": "C01.R9", "C02.R9": "C01.R15"}, "a round trip returns the datum only if the writer encodes the datum's own value: the length prefix of the very bytes written, the index of the very symbol / validated branch, the default only for an absent key")
 
